@@ -143,7 +143,7 @@ def run_editfault(case):
         if st != "ok":
             return [{"id": case["id"] * 1000, "op": "editfault", "clauses": case["clauses"], "ops": [],
                      "fault": {"at": 0, "kind": "none", "k": 0}, "status": "create:" + st, "final": "Absent",
-                     "encodable": True, "same": False}]
+                     "encodable": True, "same": False, "init": []}]
         with open(base, "rb") as fh:
             old = fh.read()
         req, entry = case["req"], case["entry"]
@@ -174,7 +174,7 @@ def run_editfault(case):
         recs.append({"id": rid, "op": "editfault", "clauses": case["clauses"], "ops": ref_ops,
                      "fault": {"at": 0, "kind": "none", "k": 0}, "status": status,
                      "final": _classify(out, old, new), "encodable": encodable, "entry": entry,
-                     "same": new == old})
+                     "same": new == old, "init": []})
         nops = len(ref_ops)
         k = 0
         for at in range(1, nops + 1):
@@ -193,10 +193,58 @@ def run_editfault(case):
                 recs.append({"id": rid + k, "op": "editfault", "clauses": case["clauses"], "ops": ops,
                              "fault": {"at": min(at, len(ops)) if ops else 0, "kind": kind, "k": 1},
                              "status": status, "final": _classify(out, old, new), "encodable": encodable,
-                             "entry": entry, "nops_ref": nops, "same": new == old})
+                             "entry": entry, "nops_ref": nops, "same": new == old, "init": []})
+                if kind in ("crash", "torncrash") and case.get("followup", True):
+                    k += 1
+                    recs.append(_followup(case, rid + k, out, sbx, run))
         return recs
     finally:
         rm(sbx)
+
+
+# the follow-up edit clears every optional field: its output is the shortest possible
+FOLLOW_REQ = {"comment": "c", "source": "c", "private": "c", "announce": "c", "url-list": "c", "httpseeds": "c"}
+
+
+def _followup(case, rid, out, sbx, run):
+    """After a process death during an edit: a later (shorter) edit in the same directory must
+    again leave the complete previous or the complete newly edited metafile."""
+    d = os.path.dirname(out)
+    with open(out, "rb") as fh:
+        pre = fh.read() if os.path.isfile(out) else b""
+    # expected result: the same follow-up edit applied to a clean copy of what is there now
+    run[0] += 1
+    clean = os.path.join(sbx, "r%d" % run[0])
+    os.makedirs(clean)
+    cout = os.path.join(clean, "m.torrent")
+    shutil.copyfile(out, cout)
+    st0, _ = _traced_child("lib", FOLLOW_REQ, cout, None, os.path.join(sbx, "logc%d.json" % run[0]), sbx)
+    expected = None
+    if st0 == "ok":
+        with open(cout, "rb") as fh:
+            expected = fh.read()
+    leftovers = sorted(f for f in os.listdir(d) if f != "m.torrent")
+    sizes = {f: os.path.getsize(os.path.join(d, f)) for f in leftovers}
+    extra = {os.path.join(d, f): "T%d" % (n + 1) for n, f in enumerate(leftovers)}
+    status, log = _traced_child("lib", FOLLOW_REQ, out, None, os.path.join(sbx, "logf%d.json" % run[0]), sbx)
+    role0 = _role_fn(out, extra)
+    nt = [len(leftovers)]
+
+    def role(p):
+        r = role0(p)
+        if r.startswith("T") and os.path.abspath(p) not in extra:
+            extra[os.path.abspath(p)] = "T%d" % (nt[0] + 1)
+            nt[0] += 1
+            return extra[os.path.abspath(p)]
+        return r
+    ops = _abstract_ops(log["log"], role, expected)
+    for o in ops:
+        if o["kind"] == "write":
+            o["d"] = "New" if expected is not None and o["extra"] == len(expected) else "Other"
+    return {"id": rid, "op": "editfault", "clauses": [c for c in case["clauses"]], "ops": ops,
+            "fault": {"at": 0, "kind": "followup", "k": 0}, "status": status,
+            "final": _classify(out, pre, expected), "encodable": True, "entry": "lib",
+            "same": expected == pre, "init": [[extra[os.path.join(d, f)], "Other", sizes[f]] for f in leftovers]}
 
 
 # ---------------------------------------------------------------------------------------------
@@ -221,7 +269,7 @@ def run_cmd(case):
         v = case["version"]
         rec = {"id": case["id"], "op": "cmd", "cmd": cmd, "clauses": case["clauses"], "ops": [], "added": [],
                "removed": [], "changed": [], "status": "ok", "target_existed": False, "same_bytes": True,
-               "fault": {"at": 0, "kind": "none", "k": 0}, "final": "", "encodable": True}
+               "fault": {"at": 0, "kind": "none", "k": 0}, "final": "", "encodable": True, "init": []}
         if cmd != "create":
             st = create_meta({"creator": "TorrentFile" if v == 1 else "TorrentAssembler", "version": v,
                               "P": case["P"], "opts": case.get("opts")}, root, meta)
@@ -288,13 +336,25 @@ def run_cmd(case):
             if ap.startswith(os.path.abspath(root)):
                 return "P:" + os.path.relpath(ap, root)
             return role0(ap)
+        if cmd == "rename" and case.get("decoy_in_cwd"):
+            os.makedirs(os.path.join(work, "else"), exist_ok=True)
+            with open(os.path.join(work, "else", tree["name"] + ".torrent"), "wb") as fh:
+                fh.write(b"unrelated file in the working directory")
+        os.makedirs(os.path.join(work, "else"), exist_ok=True)
         before = snapshot(work)
         meta_bytes = b""
         if os.path.isfile(meta):
             with open(meta, "rb") as fh:
                 meta_bytes = fh.read()
         cwd = os.getcwd()
-        os.chdir(os.path.join(work, "o"))
+        os.makedirs(os.path.join(work, "else"), exist_ok=True)
+        if case.get("cwd_mode") == "elsewhere" and case.get("outform", "file") != "cwd":
+            if cmd == "rename" and case.get("decoy_in_cwd"):
+                with fstrace.suspended():
+                    pass
+            os.chdir(os.path.join(work, "else"))
+        else:
+            os.chdir(os.path.join(work, "o"))
         so, se = sys.stdout, sys.stderr
         fstrace.start([sbx])
         try:
@@ -311,7 +371,7 @@ def run_cmd(case):
             os.chdir(cwd)
         after = snapshot(work)
         rec["ops"] = [{"kind": e["kind"], "p": role(e["path"]), "p2": role(e["path2"]) if e["path2"] else "",
-                       "d": ""} for e in log["log"]]
+                       "d": "", "extra": e.get("extra", -1)} for e in log["log"]]
         rec["added"], rec["removed"], rec["changed"] = _diff(
             {os.path.join(work, k): v for k, v in before.items()},
             {os.path.join(work, k): v for k, v in after.items()}, role)
